@@ -391,6 +391,18 @@ func goldenSpecs() []goldenSpec {
 	wd2 := WideParams{N: 1025, DenseSkip: 0, DenseLocs: 0, SparsePer: 700, NoFieldPer: 0, FreqMod: 1}
 	wdExact := WideParams{N: 2500, DenseExact: 2048, DenseLocs: 5, SparsePer: 40, NoFieldPer: 9, FreqMod: 2}
 	wdExact1 := WideParams{N: 1024, DenseExact: 1024, SparsePer: 1, FreqMod: 1}
+	// 140 field names: two-byte varint field ids in locations and stored meta data
+	var many Batch
+	{
+		var d0, d1, d2 Doc
+		for i := 0; i < 140; i++ {
+			n := fmt.Sprintf("f%03d", i)
+			d0.Fields = append(d0.Fields, Field{Name: n, Len: 1, DV: i%2 == 0, Store: i%37 == 0, Value: n, Terms: []Term{{T: fmt.Sprintf("t%d", i%5), Freq: 1}}})
+		}
+		d1.Fields = []Field{{Name: "f139", Len: 3, Store: true, Value: "v139", Terms: []Term{{T: "x", Freq: 3, Locs: []Loc{{Field: "f130", Pos: 1, Start: 0, End: 1}, {Field: "", Pos: 128, Start: 2, End: 3}, {Field: "f005", Pos: 16384, Start: 4, End: 5}}}}}}
+		d2.Fields = []Field{{Name: "f128", Len: 1, DV: true, Terms: []Term{{T: "", Freq: 1}}}, {Name: "f139", Len: 1, Terms: []Term{{T: "x", Freq: 1}}}}
+		many = Batch{d0, d1, d2}
+	}
 	dropSome := roaring.BitmapOf(1, 3)
 	wdDrop := roaring.New()
 	for i := 0; i < 2100; i += 3 {
@@ -409,6 +421,8 @@ func goldenSpecs() []goldenSpec {
 		{name: "wide-built-legacy1024", leaves: []Batch{wd2.Batch(sc)}, modes: []uint32{1024}},
 		{name: "wide-built-exact2048-adaptive", leaves: []Batch{wdExact.Batch(sc)}, modes: []uint32{1025}},
 		{name: "wide-merged-exact1024-adaptive", leaves: []Batch{wdExact1.Batch(sc), small}, modes: []uint32{1025, 1025}, drops: []*roaring.Bitmap{nil, roaring.BitmapOf(0, 1, 2, 3, 4)}, out: 1025},
+		{name: "manyfields-built", leaves: []Batch{many}, modes: []uint32{1025}},
+		{name: "manyfields-merged", leaves: []Batch{many, small}, modes: []uint32{2, 1025}, drops: []*roaring.Bitmap{roaring.BitmapOf(0), nil}, out: 3},
 		{name: "wide-merged-adaptive", leaves: []Batch{wd.Batch(sc), wd2.Batch(sc)}, modes: []uint32{1025, 1025}, drops: []*roaring.Bitmap{wdDrop, nil}, out: 1025},
 	}
 }
